@@ -128,9 +128,9 @@ def lean_audit(pid, thorough=False):
         return dict(obligations=len(thms), discharged=0, theorems=thms, checker_cmd=cmd, failures=failures, axioms={})
     rc, out, err = sh(["lake", "env", "lean", audit_file], cwd=LEAN, timeout=1800)
     axioms = {}
-    for m in re.finditer(r"'([^']+)' depends on axioms: \[([^\]]*)\]", out):
+    for m in re.finditer(r"'(\S+)' depends on axioms: \[([^\]]*)\]", out):
         axioms[m.group(1)] = [a.strip() for a in m.group(2).replace("\n", " ").split(",") if a.strip()]
-    for m in re.finditer(r"'([^']+)' does not depend on any axioms", out):
+    for m in re.finditer(r"'(\S+)' does not depend on any axioms", out):
         axioms[m.group(1)] = []
     discharged = 0
     for t in thms:
